@@ -899,6 +899,27 @@ def context_wiring(mod, bad, stats):
                                      f'(`{ast.unparse(n)}`): in a chain C extends B extends A, B\'s `super.R` '
                                      f'then denotes B\'s own definition (unbounded recursion) instead of A\'s')
                 sreads.setdefault(n.attr, fname)
+    # only an explicit `super.R` is bound to the lexical parent; a plain reference to a rule the grammar
+    # inherits (and does not define itself) is late-bound like any other - a grammar further down the chain
+    # may override it
+    body = getattr(mod, 'body', None)
+    if body is not None and mod.sub:
+        explicit = set()
+        for o in walk_objs(body):
+            if o.cls.name == 'Ref' and isinstance(o.d.get('name'), str) and o.d['name'].startswith('super.'):
+                explicit.add(impl(o.d['name'][len('super.'):]))
+        for fname, fn in load.functions_of(mod.tree).items():
+            if not fname.startswith(('_try_', helper_prefix())):
+                continue
+            for n in ast.walk(fn):
+                if isinstance(n, ast.Attribute) and isinstance(n.ctx, ast.Load) and isinstance(n.value, ast.Name) \
+                        and n.value.id == '_super_ctx':
+                    stats['super_reads'] = stats.get('super_reads', 0) + 1
+                    if n.attr not in explicit and not n.attr.endswith('_ignored'):
+                        bad('SUPER-explicit-only', f'{mod.label}: {fname} reads `_super_ctx.{n.attr}` although the '
+                                                   f'grammar does not write `super.{n.attr}`: a plain reference to an '
+                                                   f'inherited rule is bound to the lexical parent, so an override in a '
+                                                   f'grammar further down the chain is not seen')
     # inherited code runs with the most derived context: everything an ancestor's functions read
     # through _ctx must be assigned on this module's context too
     anc = getattr(mod, 'parent', None)
@@ -1532,19 +1553,37 @@ def helper_prefix():
     f-string in the generator, so that renaming the helpers does not blind the rules)"""
     if 'helper_prefix' in _cache:
         return _cache['helper_prefix']
-    pre = '_parse_function_'
+    pre = None
+
+    def leading_literal(n):
+        """the literal text a string-building expression starts with (f-string, .format, %, +)"""
+        if isinstance(n, ast.JoinedStr) and n.values and isinstance(n.values[0], ast.Constant):
+            return n.values[0].value
+        if isinstance(n, ast.Call) and isinstance(n.func, ast.Attribute) and n.func.attr == 'format' \
+                and isinstance(n.func.value, ast.Constant) and isinstance(n.func.value.value, str):
+            return n.func.value.value.split('{')[0]
+        if isinstance(n, ast.BinOp) and isinstance(n.op, ast.Mod) and isinstance(n.left, ast.Constant) \
+                and isinstance(n.left.value, str):
+            return n.left.value.split('%')[0]
+        if isinstance(n, ast.BinOp) and isinstance(n.op, ast.Add):
+            if isinstance(n.left, ast.Constant) and isinstance(n.left.value, str):
+                return n.left.value
+            return leading_literal(n.left)
+        return None
     try:
         tree = load.parse('sourcer/expressions/base.py')
         for fname, fn in load.functions_of(tree).items():
             if fname.endswith('functionalize'):
                 for n in ast.walk(fn):
-                    if isinstance(n, ast.Assign) and isinstance(n.value, ast.JoinedStr) and n.value.values \
-                            and isinstance(n.value.values[0], ast.Constant) \
-                            and any(isinstance(v, ast.FormattedValue) and 'program_id' in ast.unparse(v.value)
-                                    for v in n.value.values):
-                        pre = n.value.values[0].value
+                    if isinstance(n, (ast.JoinedStr, ast.Call, ast.BinOp)) and 'program_id' in ast.unparse(n):
+                        lit = leading_literal(n)
+                        if lit and lit.strip() and pre is None:
+                            pre = lit
     except AnalysisError:
         pass
+    if pre is None:
+        raise AnalysisError('anchor: the name Expression.functionalize gives its helper functions cannot be read '
+                            'off sourcer/expressions/base.py')
     _cache['helper_prefix'] = pre
     return pre
 
@@ -1598,6 +1637,46 @@ def argument_captures(m, bad, stats):
                                 f'name(s) {list(w)}, but no helper in it is given them (found captures: {got}): '
                                 f'inside the argument the name denotes something else than the value bound in '
                                 f'this invocation')
+
+
+def span_start_first(m, bad, stats):
+    """C10: the span of a class instance starts at the offset the class was invoked at.  In the emitted parse
+    function of every class the position is captured (`start = _pos`, the name that later goes into
+    position_info) before anything can move `_pos` - no request, no assignment to `_pos` precedes it."""
+    body = getattr(m, 'body', None)
+    if not body:
+        return
+    funcs = functions_top(m.tree)
+    for top in body:
+        if not isinstance(top, M.Obj) or top.cls.name != 'Class' or not top.d.get('name'):
+            continue
+        fn = funcs.get(impl(top.d['name']))
+        if fn is None:
+            continue
+        starts = set()
+        for n in ast.walk(fn):
+            if isinstance(n, ast.Assign) and any(isinstance(t, ast.Attribute) and t.attr == 'position_info'
+                                                 for t in n.targets) and isinstance(n.value, ast.Tuple) and n.value.elts \
+                    and isinstance(n.value.elts[0], ast.Name):
+                starts.add(n.value.elts[0].id)
+        if not starts:
+            continue            # the span rules of the skeleton (S-span) report a missing record
+        stats['class_span_functions'] = stats.get('class_span_functions', 0) + 1
+        capture = [n for n in ast.walk(fn) if isinstance(n, ast.Assign) and isinstance(n.value, ast.Name)
+                   and n.value.id == '_pos' and any(isinstance(t, ast.Name) and t.id in starts for t in n.targets)]
+        moves = [n for n in ast.walk(fn) if isinstance(n, (ast.Assign, ast.AugAssign))
+                 and any(isinstance(x, ast.Name) and x.id == '_pos' and isinstance(x.ctx, ast.Store)
+                         for t in (n.targets if isinstance(n, ast.Assign) else [n.target]) for x in ast.walk(t))]
+        if not capture:
+            bad('SPAN-start-first', f'{m.label}: {fn.name}: the start of the span ({sorted(starts)}) is not taken from '
+                                    f'`_pos`')
+            continue
+        first_move = min((n.lineno for n in moves), default=None)
+        if first_move is not None and first_move < min(n.lineno for n in capture):
+            mv = min(moves, key=lambda n: n.lineno)
+            bad('SPAN-start-first', f'{m.label}: {fn.name} moves the position (`{ast.unparse(mv)[:70]}`) before it '
+                                    f'records where the instance starts: the span begins after what was consumed '
+                                    f'there (e.g. leading ignorable text), not at the offset the class was invoked at')
 
 
 def keyword_arguments(m, bad, stats):
@@ -1793,6 +1872,7 @@ def run(rep, pid, rules, label_filter=None, always=()):
         argument_captures(m, bad, stats)
         parameter_order(m, bad, stats)
         keyword_arguments(m, bad, stats)
+        span_start_first(m, bad, stats)
         python_in_place(m, bad, stats)
     ignore_distribution(R, bad, stats)
     start_prefix_and_ignored_rule(R, mods, bad, stats)
